@@ -412,7 +412,7 @@ Proof.
   { unfold r. destruct dirs as [d|]; [apply f_pass_ok; exact HR|]. cbn zeta. cbn [fst].
     pose proof (f_pass_ok k roots Up src s HR) as H1.
     eapply fstep_ok_trans; [exact H1 | apply f_pass_ok; apply H1]. }
-  destruct (match dirs with Some _ => true | None => infer_converged (snd r) end); cbn [fir_state]; [exact Hr|].
+  cbn zeta. fold r. match goal with |- context [if ?c then _ else _] => destruct c end; cbn [fir_state]; [exact Hr|].
   destruct (negb (Nat.eqb ms 0) && Nat.leb ms (S steps))%bool; cbn [fir_state]; [exact Hr|].
   eapply fstep_ok_trans; [exact Hr | apply IH; apply Hr].
 Qed.
